@@ -249,7 +249,7 @@ func (u *Unit) isPure(fn *types.Func) bool {
 	return false
 }
 
-var functionalPrefixes = []string{"strings.", "strconv.", "(net.Error).", "(error).Error", "unicode.", "math.", "path.", "net/http.StatusText", "net/url.PathUnescape", "net/url.QueryUnescape", "(time.Duration).", "path/filepath."}
+var functionalPrefixes = []string{"(*net/url.URL).String", "strings.", "strconv.", "(net.Error).", "(error).Error", "unicode.", "math.", "path.", "net/http.StatusText", "net/url.PathUnescape", "net/url.QueryUnescape", "(time.Duration).", "path/filepath."}
 
 // pureFunctional: deterministic library functions become uninterpreted functions of their scalar arguments.
 func (u *Unit) pureFunctional(st *State, fn *types.Func, recv *Val, args []*Val, resT types.Type) *Val {
@@ -425,6 +425,9 @@ func (u *Unit) builtin(st *State, name string, x *ast.CallExpr) *Val {
 				c := u.d.fun("maplen!"+sortOf(v.T.Underlying().(*types.Map).Key()), []string{arrSort(sortOf(v.T.Underlying().(*types.Map).Key()), SBool)}, SInt)
 				r := app(c, tIte(tEq(v.S, "0"), fmt.Sprintf("((as const %s) false)", arrSort(sortOf(v.T.Underlying().(*types.Map).Key()), SBool)), u.mapDom(st, v.T, v.S)))
 				st.assumeFact(app(">=", r, "0"))
+				// an empty map has length 0 and vice versa
+				ks0 := sortOf(v.T.Underlying().(*types.Map).Key())
+				st.assumeFact(fmt.Sprintf("(= (= %s 0) (forall ((k %s)) (not (select %s k))))", r, ks0, tIte(tEq(v.S, "0"), fmt.Sprintf("((as const %s) false)", arrSort(ks0, SBool)), u.mapDom(st, v.T, v.S))))
 				return &Val{T: t, S: r}
 			}
 			if p, ok := types.Unalias(v.T).Underlying().(*types.Pointer); ok {
@@ -714,6 +717,11 @@ func (u *Unit) applyContract(st *State, ct *Contract, sig *types.Signature, recv
 		g, _ := u.evalSpecBool(st, en.E, env2, true)
 		st.assume(g)
 	}
+	for _, df := range ct.Defines {
+		g, _ := u.evalSpecBool(st, df.E, env2, true)
+		st.assume(g)
+		u.trusted["definitional clause of "+full+": "+df.Text] = true
+	}
 	for _, rc := range ct.Records {
 		v, _ := u.evalSpec(st, rc.E, env2, true)
 		if old, ok := st.gvars[rc.Text]; ok {
@@ -793,6 +801,21 @@ func (u *Unit) resolveModifies(st *State, ct *Contract, env *SpecEnv) []modItem 
 				x := u.specExpr(st, c.Args[1], env, &q)
 				out = append(out, modItem{heap: "G!" + e.Name, sort: sortOf(u.resolveType(u.eng.pkgOr(gf.Pkg, env.pkg), gf.Type)), ref: u.scalar(st, x)})
 				continue
+			}
+			// pkg.Type.field (whole array)
+			if in := e.Args[0]; in.Op == "sel" && in.Args[0].Op == "id" {
+				if _, bound := env.names[in.Args[0].Name]; !bound {
+					if ip := u.eng.findImport(env.pkg, in.Args[0].Name); ip != nil {
+						if o := ip.Scope().Lookup(in.Name); o != nil {
+							if tn, ok := o.(*types.TypeName); ok {
+								if ft := fieldType(tn.Type(), e.Name); ft != nil {
+									out = append(out, modItem{heap: heapName(tn.Type(), e.Name), sort: sortOf(ft)})
+									continue
+								}
+							}
+						}
+					}
+				}
 			}
 			// Type.field (whole array) when the head is a type name
 			if e.Args[0].Op == "id" {
